@@ -386,6 +386,7 @@ def run(ctx):
     res.assumptions = ["filter callbacks are pure and compared by identity in memo keys", "dill restores instance dictionaries faithfully (third-party behaviour, not decided)"]
     common.identity_model(ctx)
     h = H(ctx.src, ["edgegraph.traversal.helpers", "edgegraph.builder.explicit", "edgegraph.traversal.breadthfirst", "edgegraph.traversal.depthfirst"])
+    common.aux_state(h, res)
     query_side(ctx, h, res)
     memo_rule(ctx, res)
     invalidation(ctx, h, res)
